@@ -139,6 +139,9 @@ class ExteriorProduct(LinearOperator):
         right = _args[1]
         # TODO add properties in the spirit of ExteriorDerivative
 
+        if left == 0 or right == 0:
+            return S.Zero
+
         # ...
         if isinstance(left, Add):
             args = [cls.eval(i, right) for i in left.args]
